@@ -245,6 +245,34 @@ func Run(r *fw.Run) {
 		r.Merge(l)
 	})
 	for _, s := range [][2]string{{"v1.2.3", "abcdef123456"}, {"v1.2.3-pre+incompatible", "A"}, {"", "0"}, {"v1.0.99999999999999999999", "z9"}} {
+		// calendar sweep: every day of years around the Gregorian rules (divisible by 4, 100, 400, neither),
+		// at noon and one second before midnight UTC and in zones that move the date
+		{
+			l := fw.NewLocal()
+			years := []int{1, 4, 100, 400, 1600, 1900, 1999, 2000, 2001, 2023, 2024, 2100, 2400, 9600, 9996, 9999}
+			r.Bounds["calendar_sweep_years"] = years
+			for _, y := range years {
+				for d := 0; d < 366; d++ {
+					day := time.Date(y, 1, 1, 12, 0, 0, 0, time.UTC).AddDate(0, 0, d)
+					if day.Year() != y {
+						break
+					}
+					for _, t := range []time.Time{day, day.Add(12*time.Hour - time.Second), day.In(time.FixedZone("", -7*3600)), day.Add(10 * time.Hour).In(time.FixedZone("", 5*3600+1800))} {
+						if u := t.UTC(); u.Year() < 1 || u.Year() > 9999 {
+							continue
+						}
+						l.States++
+						l.Transitions++
+						l.Execs++
+						if _, msg := one("v1", "v1.2.3", t, "abcdef123456"); msg != "" {
+							c := caseT{Major: "v1", Base: "v1.2.3", Time: t.Format(time.RFC3339Nano), Rev: "abcdef123456"}
+							r.Violation(fmt.Sprintf("one:v1|v1.2.3|%s|abcdef123456", c.Time), msg, c)
+						}
+					}
+				}
+			}
+			r.Merge(l)
+		}
 		// sibling histories: pseudo-versions that differ only in the build suffix (or only in the revision, or
 		// only in the time) queried one right after the other, in both orders, in one goroutine: a result must
 		// not depend on what was parsed just before
